@@ -9,6 +9,7 @@ from absint import SlotInterp, Unsupported
 USER_SLOTS = (("fn_next", "inner"), ("fn_error", "inner"), ("fn_complete", "inner"))
 TEARDOWN_SLOT = ("fn_on_unsubscribe",)
 OBS_CELLS = USER_SLOTS + (TEARDOWN_SLOT,)
+TERMINAL_FLAG = ("terminated",)      # tracked as a bool cell when the field exists
 EVENTS = ("next", "error", "complete", "unsubscribe")
 SLOT_NAME = {("fn_next",): "next", ("fn_error",): "error", ("fn_complete",): "complete"}
 
@@ -17,16 +18,25 @@ def _observer_method(P, name):
     return P.body(OBSERVER + "::" + name)
 
 
+def _observer_cells(P):
+    adt = P.adts.get(OBSERVER) or {}
+    fields = {f["name"] for v in adt.get("variants", []) for f in v["fields"]}
+    if TERMINAL_FLAG[0] in fields:
+        return OBS_CELLS + (TERMINAL_FLAG,), (len(OBS_CELLS),)
+    return OBS_CELLS, ()
+
+
 def observer_summaries(P):
     """For each Observer method and each slot state: the set of (user invocations, new state).
     Extracted by abstract interpretation of the MIR (absint.SlotInterp)."""
-    interp = SlotInterp(P, OBS_CELLS)
+    cells, bools = _observer_cells(P)
+    interp = SlotInterp(P, cells, bool_cells=bools)
     table = {}
     for ev in EVENTS + ("is_subscribed",):
         b = _observer_method(P, ev)
         if b is None:
             raise Unsupported("anchor missing: Observer::%s" % ev)
-        for bits in itertools.product((True, False), repeat=len(OBS_CELLS)):
+        for bits in itertools.product((True, False), repeat=len(cells)):
             outs = interp.run(b, bits, {1: ()})
             res = set()
             for o in outs:
@@ -51,8 +61,9 @@ def o_typestate(P, E, kinds=None):
         return r
     # explore: node = (slot bits, terminal_seen, unsub_seen); start = all user slots present
     witnesses = {}
+    ncells = len(_observer_cells(P)[0])
     for t_present in (True, False):
-        start = ((True, True, True, t_present), False, False)
+        start = ((True, True, True, t_present) + ((False,) if ncells == 5 else ()), False, False)
         seen = {start: ()}
         work = [start]
         while work:
@@ -317,6 +328,10 @@ def _gate_true_blocks(b):
         if atom(c) == "is_subscribed" and any(rk == "param" and rd == 1 and path[:1] == ("subscriber",)
                                                for (rk, rd, path) in b.operand_prov(c.args[0])):
             gates.append(c)
+    return _branches_on_calls(b, gates)
+
+
+def _branches_on_calls(b, gates):
     out = []
     for g in gates:
         # every switch whose discriminant is (a copy of) the gate's result
